@@ -278,6 +278,15 @@ def generate(run_seed, deep=False):
                 continue
             rec = copy.deepcopy(sigs[k])
             rec["c"] = c
+            if k in evaluated and rec["api"] in LAYOUT_FREE and sc.random() < 0.3:
+                rec["args"] = relayout(rec["args"])          # the same matrix in the other memory layout
+                rec["relayout"] = True
+            if k in evaluated and rec["api"] in ("lganm.sample", "anm.sample") and sc.random() < 0.25:
+                for kind in ("do", "shift", "noise"):          # equal dicts, filled in another order
+                    v = rec["args"].get(kind)
+                    if isinstance(v, list) and len(v) >= 2:
+                        v.reverse()
+                        rec["reordered"] = True
             ops.append(rec)
             remaining[k] -= 1
             evaluated[k] = False
@@ -332,12 +341,56 @@ def sigkey(rec):
                 if isinstance(v, list) and any(spec[0] == "failing" for _, spec in v):
                     return None
         m = {"type": m["type"], "spec": sp}
-    return jkey({"api": rec["api"], "m": m, "args": rec.get("args"), "seed": rec["seed"]})
+    return jkey({"api": rec["api"], "m": m, "args": canonical_args(rec["api"], rec.get("args")), "seed": rec["seed"]})
+
+
+LAYOUT_FREE = ("utils.add_edges", "utils.remove_edges", "utils.split_data")
+
+
+def _strip_order(j):
+    if isinstance(j, dict):
+        if "__nd__" in j:
+            return {"__nd__": {k: v for k, v in j["__nd__"].items() if k != "order"}}
+        return {k: _strip_order(v) for k, v in j.items()}
+    if isinstance(j, list):
+        return [_strip_order(v) for v in j]
+    return j
+
+
+def canonical_args(api, a):
+    """What 'the same arguments' means for the pairwise oracle: intervention dicts that are equal are the same
+    whatever their insertion order; for the purely combinatorial seeded helpers (no floating-point
+    arithmetic on the argument) an equal matrix in another memory layout is the same matrix."""
+    if not isinstance(a, dict):
+        return a
+    a = dict(a)
+    for kind in ("do", "shift", "noise"):
+        if isinstance(a.get(kind), list):
+            a[kind] = sorted(a[kind], key=lambda tv: tv[0])
+    if api in LAYOUT_FREE:
+        a = _strip_order(a)
+    return a
+
+
+def relayout(j):
+    """The same arrays, C <-> Fortran ordered."""
+    if isinstance(j, dict):
+        if "__nd__" in j and len(j["__nd__"]["shape"]) == 2:
+            d = dict(j["__nd__"])
+            if d.get("order") == "F":
+                d.pop("order")
+            else:
+                d["order"] = "F"
+            return {"__nd__": d}
+        return {k: relayout(v) for k, v in j.items()}
+    if isinstance(j, list):
+        return [relayout(v) for v in j]
+    return j
 
 
 def literal(rec):
     """The same call with no reference to world objects (for the pristine evaluation)."""
-    r = {k: v for k, v in rec.items() if k not in ("c", "sig", "on_shared")}
+    r = {k: v for k, v in rec.items() if k not in ("c", "sig", "on_shared", "relayout", "reordered")}
     if "m" in r:
         r["m"] = dict(r["m"], id=None)
     return r
@@ -507,6 +560,8 @@ def oracles(w, pristine_budget):
                     w.probes["pair.numpy_integer_seed"] += 1
                 if G.seed_value(rec["seed"]) >= 2 ** 32:
                     w.probes["pair.seed>=2**32"] += 1
+                if G.seed_is_object(rec["seed"]):
+                    w.probes["pair.seed_sequence_object_reused"] += 1
                 if "rng.reseed" in kinds:
                     w.probes["pair.sep.reseed"] += 1
                 if kinds and kinds <= {"rng.draw", "gc", "rng.stdlib", "rng.getstate"} and "rng.draw" in kinds:
@@ -534,6 +589,10 @@ def oracles(w, pristine_budget):
                         w.probes["noise:" + s[0]] += 1
                 if ea["rec"].get("c") != eb["rec"].get("c"):
                     w.probes["pair.different_clients"] += 1
+                if eb["rec"].get("relayout") != ea["rec"].get("relayout"):
+                    w.probes["pair.other_memory_layout"] += 1
+                if eb["rec"].get("reordered") != ea["rec"].get("reordered"):
+                    w.probes["pair.other_dict_insertion_order"] += 1
                 if not eb["ok"]:
                     w.probes["pair.exception_outcome"] += 1
             else:
@@ -600,7 +659,8 @@ ASSUMPTIONS = [
 REQUIRED_PROBES = ["pair.nontrivial", "pair.seed0", "pair.sep.reseed", "pair.sep.draw_only",
                    "pair.sep.failed_seeded_call", "pair.sep.entropy", "pair.sep.py_random", "pair.sep.setstate",
                    "pair.sep.intervened_call_on_shared_model", "pair.different_clients", "pair.numpy_integer_seed", "pair.sep.failed_call_on_same_model",
-                   "pair.seed>=2**32", "pair.sep.caller_scribbled_on_a_returned_object"] + \
+                   "pair.seed>=2**32", "pair.sep.caller_scribbled_on_a_returned_object",
+                   "pair.seed_sequence_object_reused", "pair.other_memory_layout", "pair.other_dict_insertion_order"] + \
                   ["api:" + a for a in APIS] + ["noise:" + n for n in G.NOISE_FACTORIES] + \
                   ["nd:" + a for a in SAMPLERS] + ["nd.on_model_with_seeded_history"]
 
